@@ -58,7 +58,7 @@ TOLERANCES = {
     "sample-quantile": 1e-12, "ecdf-distance": 0.04,
     "derived-ratio": 32.0, "bgauss-proportional": 1e-12,
 }
-TIMEOUT = 240
+TIMEOUT = 120
 EXHAUSTIVE = True          # set per tier in cases()
 PREIMPORT = ["holopy", "holopy.core.prior", "holopy.core.mapping"]
 
@@ -1868,6 +1868,11 @@ class Trees:
         with scripted(self._plan(spec)) as s:
             bp = self.P.sample(size)
             bq = self.Q.sample(size)
+            if not (_shape_ok(bp, size) and _shape_ok(bq, size)):
+                # the base priors themselves are broken; that is decided in
+                # the uniform:/gaussian: cases, nothing to compare here
+                self.info.bump("base-sample-malformed")
+                return
             del s.calls[:]
             try:
                 h, exc = obj.sample(size), None
@@ -1978,6 +1983,7 @@ def _run_tree3(case, ck, info):
     for e2 in _steps(e1):
         for e3 in _steps(e2):
             T.check(e3)
+            info.bump("depth3-expressions")
     return digest(np.array(T.fp))
 
 
@@ -2134,6 +2140,9 @@ def _run_ndarr(case, ck, info):
             for size, rot in ((1, 2), (2, 1), (7, 0)):
                 with scripted(T._plan((size, rot))):
                     bp, bq = T.P.sample(size), T.Q.sample(size)
+                    if not (_shape_ok(bp, size) and _shape_ok(bq, size)):
+                        info.bump("base-sample-malformed")
+                        continue
                     try:
                         h, exc = np.asarray(r.sample(size)), None
                     except Exception as e:
@@ -2237,7 +2246,7 @@ def coverage_extra(cases, results):
         s1 = len(_spine1())
         out["depth3"] = {
             "shape": "comb (every binary node has a leaf operand)",
-            "expressions": sum(1 for c in cases if c["kind"] == "tree3"),
+            "expressions": tot.get("depth3-expressions", 0),
             "blocks": s1,
             "not_enumerated": "bushy depth-3 trees (6*(%d)^2 expressions): "
                               "capped, depth 3 is NOT exhaustive" % nfull2}
